@@ -119,7 +119,7 @@ func init() {
 			}
 			out = append(out, seeded("C10", seed, n, func(i int, sd uint64) *k.Spec {
 				u := func(tag string, n int) int { return int(k.H(sd, tag, 0) % uint64(n)) }
-				s := &k.Spec{Params: P("buf", bufs[u("buf", 5)], "random", "1", "stdout", []string{"", "", "1line", "300kshort", "200kline", "64k+1"}[u("so", 6)])}
+				s := &k.Spec{Seed: sd, Params: P("buf", bufs[u("buf", 5)], "random", "1", "stdout", []string{"", "", "1line", "300kshort", "200kline", "64k+1"}[u("so", 6)])}
 				s.Faults = []string{"pipe.chunk,pipe.smallbuf", "pipe.chunk", "pipe.smallbuf", ""}[u("faults", 4)]
 				if u("noise", 3) == 0 {
 					swarm(s, "client.go:Client.logStderr,log_entry.go")
